@@ -35,6 +35,15 @@ func writeTree(files Sx) string {
 	return dir
 }
 
+// the directory as the user names it: for every other tree "DIR/." (what `-p .` amounts to: the walk root is then
+// called "."), so that a walker that treats dot-names specially is seen
+func rootArg(dir string, files Sx) string {
+	if len(files.Items())%2 == 1 {
+		return dir + string(filepath.Separator) + "."
+	}
+	return dir
+}
+
 func relativise(nodes []core_domain.CodeDataStruct, dir string) []core_domain.CodeDataStruct {
 	out := make([]core_domain.CodeDataStruct, len(nodes))
 	for i, n := range nodes {
@@ -50,9 +59,9 @@ func init() {
 		dir := writeTree(in)
 		defer os.RemoveAll(dir)
 		identApp := javaapp.NewJavaIdentifierApp()
-		idents := identApp.AnalysisPath(dir)
+		idents := identApp.AnalysisPath(rootArg(dir, in))
 		fullApp := javaapp.NewJavaFullApp()
-		full := fullApp.AnalysisPath(dir, idents)
+		full := fullApp.AnalysisPath(rootArg(dir, in), idents)
 		return L(sxOfModel(relativise(idents, dir)), sxOfModel(relativise(full, dir)))
 	})
 }
@@ -63,15 +72,15 @@ func init() {
 		dir := writeTree(in)
 		defer os.RemoveAll(dir)
 		identApp := javaapp.NewJavaIdentifierApp()
-		idents := identApp.AnalysisPath(dir)
+		idents := identApp.AnalysisPath(rootArg(dir, in))
 		identMap := core_domain.BuildIdentifierMap(idents)
 		diMap := core_domain.BuildDIMap(idents, identMap)
 		fullApp := javaapp.NewJavaFullApp()
-		deps := fullApp.AnalysisPath(dir, idents)
+		deps := fullApp.AnalysisPath(rootArg(dir, in), idents)
 		app := new(api.JavaApiApp)
 		out := []Sx{}
 		// the result is held across a scan of another directory before it is serialised
-		apis := app.AnalysisPath(dir, deps, identMap, diMap)
+		apis := app.AnalysisPath(rootArg(dir, in), deps, identMap, diMap)
 		decoy := writeTree(L(L(A("d/DecoyController.java"), A("package d;\n@RestController\npublic class DecoyController {\n  @GetMapping(\"/decoy\")\n  public String decoy() { return null; }\n  @PostMapping(\"/decoy2\")\n  public String decoy2() { return null; }\n}\n"))))
 		_ = new(api.JavaApiApp).AnalysisPath(decoy, nil, map[string]core_domain.CodeDataStruct{}, map[string]string{})
 		os.RemoveAll(decoy)
@@ -90,7 +99,7 @@ func init() {
 		defer os.RemoveAll(dir)
 		ignore := in.Nth(1).StrList()
 		app := bs.NewBadSmellApp()
-		nodes := app.AnalysisPath(dir)
+		nodes := app.AnalysisPath(rootArg(dir, in.Nth(0)))
 		// the result is held across an analysis of another directory before it is used
 		decoy := writeTree(L(L(A("d/Decoy.java"), A("package d;\npublic class Decoy {\n  public int getA() { return 1; }\n}\n"))))
 		_ = bs.NewBadSmellApp().AnalysisPath(decoy)
@@ -158,7 +167,7 @@ func init() {
 	register("java.tbs", func(in Sx) Sx {
 		dir := writeTree(in)
 		defer os.RemoveAll(dir)
-		files := cocafile.GetJavaTestFiles(dir)
+		files := cocafile.GetJavaTestFiles(rootArg(dir, in))
 		identApp := javaapp.NewJavaIdentifierApp()
 		identifiers := identApp.AnalysisFiles(files)
 		identMap := core_domain.BuildIdentifierMap(identifiers)
@@ -190,9 +199,9 @@ func init() {
 		dir := writeTree(in.Nth(1))
 		defer os.RemoveAll(dir)
 		identApp := javaapp.NewJavaIdentifierApp()
-		idents := identApp.AnalysisPath(dir)
+		idents := identApp.AnalysisPath(rootArg(dir, in.Nth(1)))
 		fullApp := javaapp.NewJavaFullApp()
-		deps := fullApp.AnalysisPath(dir, idents)
+		deps := fullApp.AnalysisPath(rootArg(dir, in.Nth(1)), idents)
 		res := evaluate.NewEvaluateAnalyser().Analysis(deps, idents)
 		nullable := append([]string{}, res.Nullable.Items...)
 		sort.Strings(nullable)
@@ -213,9 +222,9 @@ func init() {
 		dir := writeTree(in)
 		defer os.RemoveAll(dir)
 		identApp := javaapp.NewJavaIdentifierApp()
-		idents := identApp.AnalysisPath(dir)
+		idents := identApp.AnalysisPath(rootArg(dir, in))
 		fullApp := javaapp.NewJavaFullApp()
-		deps := fullApp.AnalysisPath(dir, idents)
+		deps := fullApp.AnalysisPath(rootArg(dir, in), idents)
 		res := evaluate.NewEvaluateAnalyser().Analysis(deps, idents)
 		mapSx := func(m map[string][]string) Sx {
 			keys := make([]string, 0, len(m))
